@@ -11,5 +11,5 @@ class ConstantNode(BaseNode):
             return ConstantNode(parser)
             
     def parse(self, env):
-        env.nodes[-1].constant = True
+        env.property_target().constant = True
         return None
